@@ -13,9 +13,14 @@ Leg S2C : every reachable file of the exhaustive run (TLC -dump) and the final f
           real TrackFileReader.read (a sample also through loader.load_track); the returned Track object is projected
           back to the record format of the model, an exception is recorded by class.
 Leg C2S : every recorded load (those of S2C and seeded random files with much wider alphabets that are not derived from
-          TLC) is validated by TLC against TraceTrackModel.tla: L1 = Fidelity / ValidLoads / Rejection / TargetAsWritten on the recorded
-          outcome, L2 = equality with Code(f) (error class and further attributes included). The real operation-type
-          registry is validated as a table (L2).
+          TLC) is validated by TLC against TraceTrackModel.tla: L1 = Fidelity / ValidLoads / Rejection / TargetAsWritten /
+          IncludedTextVerbatim on the recorded outcome, L2 = equality with Code(f) (error class and further attributes included).
+          The real operation-type registry is validated as a table (L2).
+Text    : half of all generated cases and a directed family (every text of trackgen.TEXT_POOL x not included / included with
+          blanks / without blanks / with single quotes x first- / second-level part) write operation parameters whose text is
+          special to re replacement templates, Jinja or JSON (regexps, Windows paths, \\uXXXX, \\n, \\g<0>, \\1, $1, \\", }} ...);
+          the case carries what was WRITTEN (the JSON literal decoded, as UTF-8 bytes), the projection what was LOADED, TLC
+          compares them (clause IncludedTextVerbatim); a valid file that is rejected because of such a text fails ValidLoads.
 """
 import concurrent.futures
 import glob
@@ -55,15 +60,75 @@ def _sel(rnd, F):
     return ""
 
 
+NOTEXT = {"ops": [], "tasks": []}
+
+
 def make_case(cid, src, F, rnd, label=""):
-    return {"id": cid, "src": src, "f": F, "sel": _sel(rnd, F), "style": _style(rnd, F), "via": "load_track" if rnd.random() < 0.1 else "read", "label": label}
+    return {"id": cid, "src": src, "f": F, "sel": _sel(rnd, F), "style": _style(rnd, F), "via": "load_track" if rnd.random() < 0.1 else "read", "label": label, "txt": NOTEXT}
+
+
+def _inline_positions(F):
+    return [(c + 1, e + 1, i + 1) for c, ch in enumerate(F["chals"]) for e, el in enumerate(ch["sched"]) for i, t in enumerate(el["tasks"]) if t["opk"] == "inl"]
+
+
+def attach_texts(case, seed):
+    """Half of the generated cases get operation parameters whose text is special to re replacement templates / Jinja / JSON
+    (tg.TEXT_POOL): on entries of the operations section and on inline operations, i.e. inside or outside included parts
+    depending on the file. The choice depends on the seed and the id of the case only (the stream of random numbers that
+    shapes the cases themselves is left alone)."""
+    rnd = random.Random("%d|txt|%s" % (seed, case["id"]))
+    if rnd.random() < 0.5:
+        return case
+    F = case["f"]
+    ops = [{"i": k + 1, "lit": rnd.choice(tg.TEXT_POOL)} for k in range(len(F["ops"])) if rnd.random() < 0.6]
+    tasks = [{"c": c, "e": e, "i": i, "lit": rnd.choice(tg.TEXT_POOL)} for c, e, i in _inline_positions(F) if rnd.random() < 0.5]
+    case["txt"] = {"ops": ops, "tasks": tasks}
+    return case
+
+
+def directed_text_cases():
+    """Every text of tg.TEXT_POOL x how / how deep the operations that carry it are included: not at all (contrast), with
+    blanks, without blanks, with single quotes (Jinja macro), first- and second-level parts. One small valid file: two entries
+    of the operations section (with "opsN": the first stays in the first-level part, the second moves to operations/more/), one
+    challenge (in a part; with "sched": its schedule in challenges/schedules/) whose tasks run both entries and an inline operation."""
+    cases = []
+    forms = [("none", [], "spaced"), ("spaced1", ["ops", "chals"], "spaced"), ("spaced2", ["ops", "opsN", "chals", "sched"], "spaced"),
+             ("tight1", ["ops", "chals"], "tight"), ("tight2", ["ops", "opsN", "chals", "sched"], "tight"), ("single1", ["ops", "chals"], "single")]  # fmt: skip
+    n = len(tg.TEXT_POOL)
+    for k in range(n):
+        for name, parts, collect in forms:
+            F = _minimal()
+            t1, t2, t3 = (json.loads(json.dumps(F["chals"][0]["sched"][0])) for _ in range(3))
+            t1["tasks"][0]["op"], t2["tasks"][0]["op"] = "n1", "op2"
+            t3["tasks"][0].update(opk="inl", type="search", op="inl1")
+            F.update(form="challenges", chals=[{"name": "c1", "dflt": "abs", "sched": [t1, t2, t3]}], parts=list(parts), tight=collect == "tight", squote=collect == "single")
+            F["ops"] = [{"name": "n1", "type": "search", "bulk": dict(tg.NOVAL), "xp": dict(tg.NOX)}, {"name": "op2", "type": "raw-request", "bulk": dict(tg.NOVAL), "xp": dict(tg.NOX)}]
+            txt = {"ops": [{"i": 1, "lit": tg.TEXT_POOL[k]}, {"i": 2, "lit": tg.TEXT_POOL[(k + 5) % n]}], "tasks": [{"c": 1, "e": 3, "i": 1, "lit": tg.TEXT_POOL[(k + 11) % n]}]}
+            style = dict(tg.DEFAULT_STYLE, collect=collect, shuffle=k % 2 == 1, split_ops=k % 3 == 0, seed=k)
+            cases.append({"id": "d%d-%s" % (k, name), "src": "directed-text", "f": F, "sel": "", "style": style, "via": "load_track" if k % 7 == 3 else "read", "label": "", "txt": txt})
+    return cases
 
 
 def execute(case, root):
     """Renders the case, runs the real loader, returns the trace item."""
-    tg.render(case["f"], root, case["style"])
+    txt = case.get("txt") or NOTEXT
+    tg.render(case["f"], root, case["style"], txt)
     o = tg.load(root, case["f"], case["sel"], case["via"])
-    return {"id": case["id"], "kind": "load", "f": case["f"], "sel": case["sel"], "out": {k: o[k] for k in ("ok", "kind", "core", "extra")}}, o["err"]
+    return {"id": case["id"], "kind": "load", "f": case["f"], "sel": case["sel"], "txt": tg.texts_for_trace(txt), "out": {k: o[k] for k in ("ok", "kind", "core", "extra", "txt")}}, o["err"]
+
+
+def _text_profile(case):
+    """where the texts of the case live and whether one of them contains a backslash in the file"""
+    txt = case.get("txt") or NOTEXT
+    parts = case["f"]["parts"]
+    in_part = bool(txt["ops"] and "ops" in parts) or bool(txt["tasks"] and "chals" in parts)
+    nested = bool(any(x["i"] > 1 or len(case["f"]["ops"]) == 1 for x in txt["ops"]) and "opsN" in parts) or bool(txt["tasks"] and "sched" in parts)
+    return {
+        "text_params": len(txt["ops"]) + len(txt["tasks"]),
+        "text_in_included_part": in_part,
+        "text_in_second_level_part": nested,
+        "text_with_backslash": any("\\" in x["lit"] for x in txt["ops"] + txt["tasks"]),
+    }
 
 
 def _param_only_in_part(F):
@@ -98,7 +163,8 @@ def _signature(case, clauses, out_kind):
     mix = sorted({c.split(":")[2] for c in clauses if c.startswith("Rejection:mixing:")})
     if mix:
         sig["mixed"] = "+".join(mix)
-    if "ValidLoads" in names or "Fidelity" in names:
+    if "ValidLoads" in names or "Fidelity" in names or "IncludedTextVerbatim" in names:
+        sig.update(_text_profile(case))
         sig["collect"] = case["style"]["collect"]
         sig["rejected_as"] = out_kind or "loaded"
         sig["supplied_param_only_in_included_part"] = _param_only_in_part(case["f"])
@@ -259,7 +325,8 @@ def run(ctx, out):
     out.note("leg S2C: %d TLC -simulate behaviours (wide alphabets, valid for 5 builder steps, then up to 9 more; mean size of the final file %.1f)" % (len(sims), sum(tg.size(c["f"]) for c in sims) / max(1.0, float(len(sims)))))
     lap("simulation done")
     rnds = random_cases(ctx.seed + 1010, 300 if ctx.quick else 8000)
-    allcases = cases + sims + rnds
+    directed = directed_text_cases()
+    allcases = [attach_texts(c, ctx.seed) for c in cases + sims + rnds] + directed
 
     root = os.path.join(tlc.scratch("c10tracks"), "t")
     switches = probe_loader(root)
@@ -267,6 +334,7 @@ def run(ctx, out):
     out.note("loader variant of the tree under test (selects the transcription used for L2 only): %s" % switches)
     items, errs, index, item_of = [], {}, {}, {}
     stats = {"loaded": 0, "syntax": 0, "config": 0, "other": 0}
+    text_stats = {"cases_with_text": 0, "loaded_with_text": 0, "text_params": 0, "text_in_included_part": 0, "text_in_second_level_part": 0}
     for case in allcases:
         it, err = execute(case, root)
         items.append(it)
@@ -276,9 +344,19 @@ def run(ctx, out):
         o = it["out"]
         stats["loaded" if o["ok"] else o["kind"] if o["kind"] in ("syntax", "config") else "other"] += 1
         key = {"f": case["f"], "sel": case["sel"]}
+        if case["txt"]["ops"] or case["txt"]["tasks"]:
+            key["txt"] = case["txt"]
+            prof = _text_profile(case)
+            for k in ("text_params", "text_in_included_part", "text_in_second_level_part"):
+                text_stats[k] += int(prof[k])
+            text_stats["cases_with_text"] += 1
+            text_stats["loaded_with_text"] += int(o["ok"])
         out.add_case(key, nontrivial=tg.size(case["f"]) > 0)
     lap("%d tracks rendered and loaded" % len(items))
     out.extra["real_loader_outcomes"] = stats
+    out.extra["text_parameters"] = dict(text_stats, pool=len(tg.TEXT_POOL), directed_cases=len(directed))
+    if text_stats["cases_with_text"] == 0 or text_stats["text_in_second_level_part"] == 0:
+        out.vacuous.append("no generated track carries a text parameter (in a second-level part): IncludedTextVerbatim is vacuous")
     out.extra["via_load_track"] = sum(1 for c in allcases if c["via"] == "load_track")
     for pick in (cases[len(cases) // 2], sims[len(sims) // 2] if sims else None, rnds[0] if rnds else None):
         if pick is not None:
@@ -297,7 +375,31 @@ def run(ctx, out):
         clauses = sorted({c for _, cl in fails for c in cl})
         sig = _signature(case, clauses, it["out"]["kind"])
         detail = "%s source=%s outcome=%s %s" % (clauses, case["src"], "loaded" if it["out"]["ok"] else it["out"]["kind"], errs[tid][:160].replace("\n", " "))
-        out.violations.append(Violation(sig["clause"], {k: case[k] for k in ("f", "sel", "style", "via")}, signature=sig, detail=detail))
+        out.violations.append(Violation(sig["clause"], {k: case[k] for k in ("f", "sel", "style", "via", "txt")}, signature=sig, detail=detail))
+    # self-test of the clause IncludedTextVerbatim: a recorded load that the clause accepts must fail it (and nothing else at L1)
+    # once one byte of a loaded text differs / one text is lost / a task that has none carries one
+    base = next((item_of[c["id"]] for c in directed if item_of[c["id"]]["out"]["ok"] and c["id"] not in l1), None)
+    if base is None:
+        out.note("self-test of IncludedTextVerbatim skipped: no directed case was loaded and accepted on this tree")
+    else:
+        def forged(tag, edit):
+            it = json.loads(json.dumps(base))
+            it["id"] = "selftest-" + tag
+            edit(it["out"]["txt"])
+            return it
+
+        forged_items = [
+            forged("byte", lambda t: t[0]["w"].__setitem__(0, t[0]["w"][0] ^ 1)),
+            forged("lost", lambda t: t.pop()),
+            forged("moved", lambda t: t[0].__setitem__("e", t[0]["e"] + 1 if t[0]["e"] == 1 else 1)),
+            forged("same", lambda t: t.reverse()),
+        ]
+        sl1, _, _ = validate(forged_items, switches, name="c10selftest")
+        got = {tid: sorted({c for _, cl in fails for c in cl}) for tid, fails in sl1.items()}
+        want = {"selftest-byte": ["IncludedTextVerbatim"], "selftest-lost": ["IncludedTextVerbatim"], "selftest-moved": ["IncludedTextVerbatim"]}
+        if got != want:
+            raise tlc.MachineryError("self-test of the clause IncludedTextVerbatim failed: %s (expected %s)" % (got, want))
+        out.extra["text_clause_selftest"] = "forged loads (one byte differs / one text lost / text on another task) fail IncludedTextVerbatim, the reordered original passes"
     for tid in l2:
         if tid in index:
             out.drift.append("case %s (%s): outcome of the real loader differs from the transcription (Code): %s %s" % (tid, index[tid]["src"], "loaded" if item_of[tid]["out"]["ok"] else item_of[tid]["out"]["kind"], errs[tid][:120].replace("\n", " ")))
@@ -312,6 +414,9 @@ def replay(ctx, case):
     it, err = execute(c, root)
     with open(os.path.join(root, "track.json"), "r", encoding="utf-8") as fh:
         print(fh.read())
+    for rel in sorted(glob.glob(os.path.join(root, "*", "**", "*.json"), recursive=True)):
+        with open(rel, "r", encoding="utf-8") as fh:
+            print("---- %s\n%s" % (os.path.relpath(rel, root), fh.read()))
     print("supplied track parameters: %s" % tg.supplied_params(case["f"]))
     print("outcome of the real loader: %s %s" % ("loaded" if it["out"]["ok"] else it["out"]["kind"], err))
     l1, l2, _ = validate([it], probe_loader(root + "probe"), name="c10replay")
